@@ -580,7 +580,13 @@ func c10catcher(o *out, id, G, M, procs int, allNonNil bool, seed uint64) {
 				}
 				if k == 0 {
 					_ = c.Resolve()
-					_ = c.Errors()
+					// what Errors() hands out belongs to the caller: overwriting it and appending to it must not
+					// reach the errors the catcher retains
+					es := c.Errors()
+					for i := range es {
+						es[i] = nil
+					}
+					_ = append(es, errors.New("scribbled by an observer"))
 				} else {
 					_ = c.String()
 				}
@@ -644,6 +650,11 @@ func c10cases(r *rng, reps int, emitRun func(c10cfg), emitCat func(G, M, procs i
 						id++
 						c := c10cfg{id: id, mode: "buf", inner: "dyn", n: []int{1000, 7}[r.intn(2)], G: G, M: M, size: size, procs: procs,
 							perturb: r.intn(3), seed: r.u64()}
+						if size == 2 {
+							// an inner collector that refuses everything beyond its capacity: acknowledged samples can be
+							// rejected later, and then Resolve has to say so
+							c.inner, c.capv = "base", 1+r.intn(G*M)
+						}
 						switch r.intn(8) {
 						case 0:
 							c.cancel = "end"
